@@ -43,6 +43,17 @@ SENTINELS = [
        warm="on_degenerate"),
     _s("MultiTaskBCD", "QuadraticMultiTask", "L2_1", "dense", ["zero", "regular", "zero", "regular"], warm="on_degenerate"),
     _s("GramCD", "None", "L1", "dense", ["regular", "zero", "regular", "regular"], warm="on_degenerate"),
+    _s("MultiTaskBCD", "QuadraticMultiTask", "L2_1", "csc_explicit", ["zero", "regular", "zero", "regular"]),
+    _s("MultiTaskBCD", "QuadraticMultiTask", "L2_1", "csc_explicit", ["regular", "zero", "regular", "regular"], fi=True,
+       warm="on_degenerate"),
+    _s("AndersonCD", "Quadratic", "L1", "csc_explicit", ["zero", "regular", "dup", "zero"], fi=True),
+    _s("ProxNewton", "Logistic", "L1", "csc_explicit", ["regular", "zero", "regular", "regular"], warm="on_degenerate"),
+    _s("GroupBCD", "QuadraticGroup", "WeightedGroupL2", "csc_explicit", ["zero", "zero", "regular", "regular"]),
+    _s("GramCD", "None", "L1", "csc_explicit", ["regular", "zero", "regular", "zero"]),
+    _s("FISTA", "Quadratic", "L1", "csc_explicit", ["zero", "regular", "regular", "regular"]),
+    _s("PDCD_WS", "Pinball", "L1", "dense", ["zero", "regular", "regular", "regular"]),
+    _s("PDCD_WS", "SqrtQuadratic", "L1", "dense", ["regular", "zero", "regular", "zero"]),
+    _s("PDCD_WS", "Pinball", "L1", "dense", ["regular", "regular", "zero", "regular"], warm="on_degenerate"),
     _s("AndersonCD", "Quadratic", "L1", "dense", ["zero", "regular", "regular", "regular"], strategy="fixpoint"),
     _s("AndersonCD", "Quadratic", "L1", "csc", ["regular", "zero", "regular", "regular"], strategy="fixpoint", fi=True),
 ]
@@ -52,6 +63,9 @@ def to_scenario(d):
     sc = dict(DEFAULTS)
     sc.update({k: d[k] for k in ("solver", "datafit", "penalty", "storage", "fit_intercept", "greedy",
                                  "strategy")})
+    if sc["storage"] == "csc_explicit":
+        sc["storage"] = "csc"
+        sc["explicit_zeros"] = True
     if sc["penalty"] == "WeightedL1":
         sc["weights"] = "zeros"
     sc["degen"] = dict(cols=list(d["cols"]), target=d["target"], shape=d["shape"])
